@@ -346,6 +346,65 @@ func runC12(c *Ctx) {
 			}
 			ok = okRev && okFwd
 		}
+		// the direction may also be chosen once, before the sort: the comparator handed over is
+		// then one of two function literals, each with a fixed direction, selected by `reverse`
+		if cmpFn == nil {
+			mf0 := factsOf(merge)
+			for _, call := range AllCallsDeep(merge) {
+				if !isSortCall(CalleeName(call.Common())) || len(call.Common().Args) < 2 {
+					continue
+				}
+				phi, isPhi := ArgK(call, 1).(*ssa.Phi)
+				if !isPhi || len(phi.Edges) != 2 {
+					continue
+				}
+				sortCalls = append(sortCalls, call)
+				okRev, okFwd, bad := false, false, false
+				for k, ev := range phi.Edges {
+					mc, isMC := ev.(*ssa.MakeClosure)
+					if !isMC {
+						bad = true
+						continue
+					}
+					f, _ := mc.Fn.(*ssa.Function)
+					pred := phi.Block().Preds[k]
+					rev, fwd := false, false
+					facts := append(append([]Fact{}, mf0.FactsAt(pred)...), mf0.FactsOnEdge(pred, phi.Block())...)
+					for _, fct := range facts {
+						if !fct.IsCmp && fct.B != nil && fct.B.Op == "param" && fct.B.Owner == "reverse" {
+							rev, fwd = fct.Truth, !fct.Truth
+						}
+					}
+					if !rev && !fwd {
+						// the edge that is not under `if reverse` is the default: taken when reverse is false
+						// only if the other edge is under reverse == true
+						fwd = true
+					}
+					dirs := map[string]bool{}
+					for _, r := range Returns(f) {
+						if r.Block() == f.Recover || len(r.Results) != 1 {
+							continue
+						}
+						dir, key, okd := returnOrder(f, r)
+						detail += fmt.Sprintf("[edge %d: %s on %s rev=%v] ", k, dir, key, rev)
+						if okd && strings.Contains(key, "Key(") {
+							dirs[dir] = true
+						}
+					}
+					if len(dirs) != 1 {
+						bad = true
+					}
+					if rev && dirs["desc"] {
+						okRev = true
+					} else if fwd && !rev && dirs["asc"] {
+						okFwd = true
+					} else {
+						bad = true
+					}
+				}
+				ok = okRev && okFwd && !bad
+			}
+		}
 		c.Require("C12.R5 merge-order", FuncKey(merge)+" comparator", p.Pos(merge.Pos()), "less(i,j) is Compare(key_i,key_j) > 0 when reverse, < 0 otherwise", ok, detail)
 		// limit slicing after sort
 		var sortCall ssa.CallInstruction
